@@ -246,7 +246,10 @@ class AckMonitor(Monitor):
         self.rpc = {}                   # correlation id -> dict(exec, state)
         self.a3 = {}
         self.delivered_events = {}      # seq -> dict(message_id, queue, step)
+        self.a5_pending = []            # acks of branch-end events awaiting the end of their step
+        self.step_pubs = {}             # step -> [(execution, branch depth | None, terminal status?)]
         world.broker.hooks.append(self.on_op)
+        world.step_hooks.append(self.end_of_step)
 
     # ------------------------------------------------------------------ helpers
     @staticmethod
@@ -286,6 +289,69 @@ class AckMonitor(Monitor):
             return self.step_exec[step]
         return self.step_exec.get(self.timer_subject_step(step))
 
+    # ------------------------------------------------------------------ A5: the event that ENDS a branch is held until its join is decided
+    @staticmethod
+    def locate_state(defn, name):
+        """-> (state, chain of enclosing fan-out states, innermost last) or (None, [])"""
+        def walk(machine, chain):
+            states = machine.get("States") if isinstance(machine, dict) else None
+            if not isinstance(states, dict):
+                return None
+            if name in states and isinstance(states[name], dict):
+                return states[name], chain
+            for st in states.values():
+                if not isinstance(st, dict):
+                    continue
+                subs = list(st.get("Branches") or []) if st.get("Type") == "Parallel" else [st.get("ItemProcessor") or st.get("Iterator")] if st.get("Type") == "Map" else []
+                for sub in subs:
+                    r = walk(sub, chain + [st]) if isinstance(sub, dict) else None
+                    if r:
+                        return r
+            return None
+        return walk(defn, []) or (None, [])
+
+    def note_branch_end_ack(self, rec):
+        info = self.mid_info.get(rec.get("message_id"))
+        if not info or not info["branch"]:
+            return
+        iid = (rec["conn"] or "").split(":", 1)[-1]
+        eng = self.w.engines.get(iid)
+        if eng is None:
+            return
+        try:
+            defn = info["defn"] or eng.se.asl_store[info["sm"]]["definition"]
+            if isinstance(defn, str):
+                defn = json.loads(defn)
+        except Exception:
+            return
+        st, chain = self.locate_state(defn, info["name"])
+        if st is None or st.get("Type") in ("Parallel", "Map", "Fail") or not (st.get("End") is True or st.get("Type") == "Succeed"):
+            return
+        ex = self.mid_exec.get(rec["message_id"])
+        bm = eng.se.branch_metadata.get(ex)
+        terminated = bm is None
+        if bm is not None:
+            for bid in info["branch"]:
+                r = bm.results.get(bid)
+                if r is not None and r.get("terminated"):
+                    terminated = True
+        self.seen["branch_end_event_acks"] += 1
+        self.a5_pending.append(dict(step=rec["step"], mid=rec["message_id"], ex=ex, depth=len(info["branch"]), state=info["name"], terminated=terminated,
+                                    inner_end_join=bool(len(chain) >= 2 and chain[-1].get("End") is True)))
+
+    def end_of_step(self, world, act):
+        keep = []
+        for p in self.a5_pending:
+            pubs = self.step_pubs.get(p["step"], [])
+            consequence = any(ex == p["ex"] and (term or (depth is not None and depth < p["depth"])) for ex, depth, term in pubs)
+            running = p["ex"] in self.notes.running() if self.notes else True
+            if not consequence and not p["terminated"] and running:
+                self.flag("A5-branch-end-event-acknowledged-before-its-join-was-decided", subject=p["mid"], state=p["state"], ack_step=p["step"],
+                          inner_end_join=p["inner_end_join"])
+        self.a5_pending = keep
+        for st in [k for k in self.step_pubs if k < world.broker.step - 2]:
+            del self.step_pubs[st]
+
     # ------------------------------------------------------------------ hook
     def on_op(self, rec):
         op, conn = rec["op"], rec["conn"] or ""
@@ -294,6 +360,26 @@ class AckMonitor(Monitor):
             mid = rec["props"].get("message_id")
             if mid is not None:
                 self.mid_exec[mid] = ex
+            depth = None
+            try:
+                c = json.loads(rec["body"])["context"]
+                br = c["State"].get("Branch") or []
+                depth = len(br)
+                if mid is not None:
+                    self.mid_info[mid] = dict(name=c["State"].get("Name"), branch=[b.get("ID") for b in br], sm=c["StateMachine"].get("Id"), defn=c["StateMachine"].get("Definition"))
+            except Exception:
+                pass
+            if self.is_engine(conn):
+                self.step_pubs.setdefault(rec["step"], []).append((ex, depth, False))
+        if op == "basic_publish" and self.is_engine(conn) and rec["exchange"] == TOPIC:
+            try:
+                d = json.loads(rec["body"])["detail"]
+                if d.get("status") != "RUNNING":
+                    self.step_pubs.setdefault(rec["step"], []).append((d.get("executionArn"), None, True))
+            except Exception:
+                pass
+        if op == "basic_ack" and self.is_engine(conn) and self.is_eventq(rec.get("queue")):
+            self.note_branch_end_ack(rec)
         if op == "basic_publish" and self.is_engine(conn) and rec["props"].get("reply_to") and rec["exchange"] == "":
             cid = rec["props"]["correlation_id"]
             self.rpc[cid] = dict(exec=self.mid_exec.get(self.base_cid(cid)) or self.exec_of_step(rec["step"]), state="out",
